@@ -224,6 +224,19 @@ check('C13',
       '(only through round trips of cases that were loaded from raw+dyr).',
       'DESIGN.md 7 C13')
 
+check('C17',
+      'property-based fault injection (Hypothesis): generated networks x injected infeasibility (overload, no slack, island '
+      'without slack, zero impedance, NaN/inf datum, iteration limit, tolerance) with a two-sided oracle (True => finite '
+      'state + independent nodal balance + exit code 0; False => exit code != 0, dependents refuse and leave the state '
+      'alone); stock dynamic cases x destabilising schedules/configurations/inconsistent dynamic data with a per-attempt '
+      'step log; stateful machine (RuleBasedStateMachine) over routine sequences with a failure model; andes.run(cli=True) '
+      'over good/infeasible/unstable/missing/empty/truncated/garbage files, single and multi-case, Process and Pool',
+      'Fault injection with a two-sided oracle; stateful sequences against a failure model; CLI exit-code differential.',
+      'Trusted: vf/oracle/pf.py (balance), the harness wrappers of TDS.itm_step / dae.store. An exception is accepted as a '
+      'report of failure except from a dependent routine after a failed power flow. Steps accepted by the documented '
+      'chattering rule are counted, not judged. Exact-zero impedance: flags only.',
+      'DESIGN.md 7 C17')
+
 NOT_BUILT = 'check not built yet in this round (machinery in progress; see DESIGN.md section 10 build order)'
 ALL = ['C%02d' % i for i in range(1, 21)]
 
